@@ -1,6 +1,7 @@
 import Pm.Signal
 import Pm.Dev2Fd
 import Pm.Dev2Timer
+import Pm.WalkProof
 /-! # C20 — no resource leaks: descriptors and coprocess children
 
 Scope: the connection layer of one device (`device.c:_connect/_disconnect/_reconnect/_handle_ready_device/
@@ -8,10 +9,13 @@ _process_action/dev_post_poll`, `device_tcp.c`, `device_pipe.c`) on the mirror `
 queue, script, oracle answer, kernel answer and fuel.  No theorem here needs a "the pass did not abort" hypothesis.
 
 How it is organised (`Pm/Dev2Fd.lean`): seen through (descriptor, connection state, child pid) and the system-call log,
-every function of the layer performs a sequence (`Moves`) of eight kinds of move (`Tr`: nothing / a C assert from a
+every function of the layer performs a sequence (`Moves`) of nine kinds of move (`Tr`: nothing / a C assert from a
 state where `fd` and `connect_state` disagree / tcp open / tcp open-and-fail / coprocess open / finish connect /
-finish-connect fails / disconnect); the invariants and the two ledgers are checked against the eight moves once
-(`Keeps`).
+finish-connect fails / disconnect / the `finish_connect != NULL` assert on a coprocess device that is CONNECTING); the
+invariants and the two ledgers are checked against the nine moves once
+(`Keeps`).  A host with several addresses (`tcp->addrs`): `tcp_connect` and `tcp_finish_connect` walk the list — one
+`tcp open-and-fail` move per address that fails, then at most one `tcp open` (`connectWalk_moves`); the log of a walk is
+spelt out in `C20_fd_ledger_walk`.
 
 Ranking: the state invariants ▸ they are kept by every function ▸ the descriptor ledger (no double close, no leak) ▸
 the child ledger (no kill of a foreign pid, every signalled child reaped, no zombie) ▸ the same as count equations. -/
@@ -47,14 +51,23 @@ theorem C20_conn_range_preserved (d : Dev) (env : Env) (o : Oracle) (h : ConnRan
 theorem C20_transport_fixed (d : Dev) (env : Env) (o : Oracle) : (postPoll d env o).1.dev.isPipe = d.isPipe :=
   (postPoll_moves d env o).isPipe
 
-/-- `ChildInv` needs its third conjunct: the two-conjunct version asked for is *not* inductive.  A coprocess device
-    in state CONNECTING with a child recorded satisfies the two conjuncts; POLLOUT with `SO_ERROR != 0` takes it through
-    `tcp_finish_connect`'s failure path to NOT_CONNECTED with the child still recorded (and never reaped). -/
-theorem C20_child_inv_two_conjuncts_counterexample :
+/-- `ChildInv`'s third conjunct — a coprocess device is never CONNECTING — is what `_handle_ready_device` asserts
+    (`assert(dev->finish_connect != NULL)`: only a tcp device has the method).  A coprocess device put in state CONNECTING
+    satisfies the first two conjuncts; POLLOUT takes it to that assert: the daemon is gone, the device is as it was.
+    (Before the assert was modelled the mirror let such a device run through `tcp_finish_connect`, which showed the
+    two-conjunct version not inductive: NOT_CONNECTED with the child still recorded.) -/
+theorem C20_pipe_connecting_asserts :
     let d := exPipeConnecting
-    let d' := (handleReady ⟨d, exEnvRefused, [], false⟩).1.dev
+    let r := (handleReady ⟨d, exEnvRefused, [], false⟩).1
     ((d.cpid.isSome = true → d.isPipe = true ∧ d.conn ≠ 0) ∧ (d.isPipe = true → d.conn ≠ 0 → d.cpid.isSome = true)) ∧
-    ¬ (d'.cpid.isSome = true → d'.isPipe = true ∧ d'.conn ≠ 0) := by decide
+    ¬ ChildInv d ∧ r.aborted = true ∧
+    (match r.sys with | [Sys.abort s] => s == "assert finish_connect != NULL" | _ => false) = true ∧
+    r.dev.fd = d.fd ∧ r.dev.conn = d.conn ∧ r.dev.cpid = d.cpid := by
+  unfold ChildInv; decide +kernel
+
+/-- under `ChildInv` that assert is never reached: a coprocess device is not CONNECTING when `_handle_ready_device` looks -/
+theorem C20_finish_connect_assert_unreachable (d : Dev) (h : ChildInv d) : ¬ (d.isPipe = true ∧ d.conn = 1) :=
+  fun ⟨hp, h1⟩ => h.2.2 hp h1
 
 /-! ## every function of the layer is a sequence of legal moves, hence keeps everything in `Keeps`
 
@@ -186,6 +199,67 @@ example : FdInv exTcp ∧ (postPoll exTcp exEnvFail ⟨[]⟩).1.dev.conn = 0 ∧
     opened (postPoll exTcp exEnvFail ⟨[]⟩).1.sys = [2001] ∧ closed (postPoll exTcp exEnvFail ⟨[]⟩).1.sys = [2000, 2001] := by
   unfold FdInv; decide
 
+/-- **The descriptor ledger over the address walk: every socket opened for an address that fails is closed before the next
+    address is tried.**  `WalkLog δ fd`: the log `δ` consists, for every address that failed, of its `socket x`, entries that
+    neither open nor close anything (`connect`, `SO_ERROR`), and the `close x` of that very socket — and only then the next
+    address; at the end possibly one socket that stays open, which is then the descriptor `fd` the device holds.
+    1. The walk (`while (tcp->cur && !tcp_connect_one(dev, tcp->cur)) tcp->cur = tcp->cur->ai_next`), entered without a
+       descriptor (as `tcp_connect` enters it, and `tcp_finish_connect` after its `close`), appends such a log.
+    2. Replayed from no open descriptor such a log never closes a descriptor that is not open, and leaves open exactly `fd`.
+    3. At every `socket()` of the walk all sockets opened earlier in the walk have been closed: never two at once.
+    4. So for `tcp_connect` (NOT_CONNECTED, no descriptor) and for the failure path of `tcp_finish_connect` (which first closes
+       the pending socket — `closeOf`) the ledger holds from start to end.
+    (Over whole passes: `C20_fd_ledger`, which needs no hypothesis.) -/
+theorem C20_fd_ledger_walk :
+    (∀ (n : Nat) (c : CS), c.dev.fd = none →
+      ∃ δ, (connectWalk n c).sys = c.sys ++ δ ∧ Pm.Dev2.Walk.WalkLog δ (connectWalk n c).dev.fd) ∧
+    (∀ (δ : List Sys) (fd : Option Nat), Pm.Dev2.Walk.WalkLog δ fd → fdRun [] δ = some fd.toList) ∧
+    (∀ (δ : List Sys) (fd : Option Nat), Pm.Dev2.Walk.WalkLog δ fd →
+      ∀ (p r : List Sys) (x : Nat), δ = p ++ Sys.socket x :: r → fdRun [] p = some []) ∧
+    (∀ c : CS, c.dev.conn = 0 → c.dev.fd = none →
+      ∃ δ, (tcpConnect c).1.sys = c.sys ++ δ ∧ Pm.Dev2.Walk.WalkLog δ (tcpConnect c).1.dev.fd) ∧
+    (∀ c : CS, (∃ i, c.dev.cur = some i) →
+      ∃ δ, (finishConnectFail c).sys = c.sys ++ closeOf c.dev.fd ++ δ ∧ Pm.Dev2.Walk.WalkLog δ (finishConnectFail c).dev.fd) := by
+  refine ⟨Pm.Dev2.Walk.connectWalk_log, fun δ fd h => h.ledger, fun δ fd h => h.one_at_a_time, ?_, ?_⟩
+  · intro c h0 hfd
+    unfold tcpConnect
+    have hfs : c.dev.fd.isSome = false := by simp [hfd]
+    simp only [h0, bne_self_eq_false, Bool.false_eq_true, ↓reduceIte, hfs]
+    obtain ⟨δ, e1, e2⟩ := Pm.Dev2.Walk.connectWalk_log c.dev.naddr { c with dev := { c.dev with conn := 1, cur := some 0 } } hfd
+    generalize connectWalk c.dev.naddr _ = r at *
+    refine ⟨δ, ?_, ?_⟩
+    · split <;> exact e1
+    · split <;> exact e2
+  · rintro c ⟨i, hi⟩
+    unfold finishConnectFail
+    obtain ⟨a1, a2, _, _, _, a6, _⟩ := closeFd_shape c
+    generalize closeFd c = c1 at *
+    rw [a6, hi]
+    dsimp only
+    obtain ⟨δ, e1, e2⟩ := Pm.Dev2.Walk.connectWalk_log c1.dev.naddr { c1 with dev := { c1.dev with cur := aiNext c1.dev.naddr i } } a2
+    generalize connectWalk c1.dev.naddr _ = r at *
+    refine ⟨δ, ?_, ?_⟩
+    · split
+      · show r.sys = _; rw [e1]; show c1.sys ++ δ = _; rw [a1]
+      · rw [e1]; show c1.sys ++ δ = _; rw [a1]
+    · split <;> exact e2
+
+/-- non-vacuity: three addresses, the first two fail at once, the third is in progress: sockets 2000 and 2001 are opened and
+    closed one after the other, 2002 stays — the device's descriptor; with every address failing, all three are closed -/
+example : opened (tcpConnect ⟨Pm.Dev2.Walk.ex3, Pm.Dev2.Walk.env221, [], false⟩).1.sys = [2000, 2001, 2002] ∧
+    closed (tcpConnect ⟨Pm.Dev2.Walk.ex3, Pm.Dev2.Walk.env221, [], false⟩).1.sys = [2000, 2001] ∧
+    (tcpConnect ⟨Pm.Dev2.Walk.ex3, Pm.Dev2.Walk.env221, [], false⟩).1.sys.length = 8 ∧
+    (tcpConnect ⟨Pm.Dev2.Walk.ex3, Pm.Dev2.Walk.env221, [], false⟩).1.dev.fd = some 2002 ∧
+    closed (tcpConnect ⟨Pm.Dev2.Walk.ex3, Pm.Dev2.Walk.env222, [], false⟩).1.sys = [2000, 2001, 2002] ∧
+    (tcpConnect ⟨Pm.Dev2.Walk.ex3, Pm.Dev2.Walk.env222, [], false⟩).1.dev.fd = none := by decide
+/-- … and a whole pass: POLLOUT on the pending socket 2000 (first address), `SO_ERROR` says refused; 2000 is closed, the second
+    address connects at once (socket 2001, clean `SO_ERROR`): CONNECTED on address 2, login queued -/
+example :
+    let d : Dev := { Pm.Dev2.Walk.ex3 with conn := 1, fd := some 2000 }
+    opened (postPoll d Pm.Dev2.Walk.envFin ⟨[]⟩).1.sys = [2001] ∧ closed (postPoll d Pm.Dev2.Walk.envFin ⟨[]⟩).1.sys = [2000] ∧
+    (postPoll d Pm.Dev2.Walk.envFin ⟨[]⟩).1.dev.fd = some 2001 ∧ (postPoll d Pm.Dev2.Walk.envFin ⟨[]⟩).1.dev.conn = 2 ∧
+    (postPoll d Pm.Dev2.Walk.envFin ⟨[]⟩).1.dev.cur = some 1 ∧ (postPoll d Pm.Dev2.Walk.envFin ⟨[]⟩).1.aborted = false := by decide
+
 /-- the ledger for the single functions, in invariant form (the log may already contain earlier calls of the pass) -/
 theorem C20_fd_ledger_steps (c : CS) (tmo : Option Time) (held0 : List Nat)
     (h : fdRun held0 c.sys = some c.dev.fd.toList) :
@@ -252,13 +326,13 @@ theorem C20_child_ledger_steps (c : CS) (tmo : Option Time) (k0 : List Nat × Li
   ⟨fun h0 => (connectDev_moves c h0).keeps_all.kidLedger _ hi h, (disconnectDev_moves c).keeps_all.kidLedger _ hi h,
    (reconnectDev_moves c tmo).keeps_all.kidLedger _ hi h, fun hfd => (handleReady_moves c hfd).keeps_all.kidLedger _ hi h⟩
 
-/-- without `ChildInv` the child ledger fails: from the state of `C20_child_inv_two_conjuncts_counterexample` after the
-    refused connect (NOT_CONNECTED, child 5000 still recorded) the next `_connect` forks 5001 over it — 5000 is never
-    signalled nor reaped -/
+/-- without `ChildInv` the child ledger fails: from a coprocess device that is NOT_CONNECTED with a child 5000 still recorded
+    (first conjunct violated) the next `_connect` forks 5001 over it — 5000 is never signalled nor reaped -/
 theorem C20_child_ledger_needs_inv_counterexample :
-    let d := (handleReady ⟨exPipeConnecting, exEnvRefused, [], false⟩).1.dev
+    let d : Dev := { exDev with conn := 0, fd := none, isPipe := true, cpid := some 5000 }
+    ¬ ChildInv d ∧
     kidRun (d.cpid.toList, []) (postPoll d exEnv ⟨[]⟩).1.sys ≠ some ((postPoll d exEnv ⟨[]⟩).1.dev.cpid.toList, []) := by
-  decide
+  unfold ChildInv; decide
 
 /-- non-vacuity: hang-up on the connected coprocess device — descriptor 3000 closed, child 5000 signalled and reaped,
     new socketpair 3002/3003, child's end 3003 closed, child 5001 recorded, login done, nothing aborted -/
